@@ -394,6 +394,17 @@ func scenarioC20(r *Run) {
 			w.failSvc[i] = true
 		}
 	}
+	if len(w.failSvc) > 0 && !w.netPop {
+		// Whatever Loop itself may send on a connection whose service cannot start
+		// (a notice to the peer) can fail: the connection is closed all the same.
+		// Only connections without calls get the fault (a server sends nothing on
+		// those), so that it cannot be mistaken for a failed reply.
+		for _, c := range w.conns {
+			if c.Calls == 0 && c.sEnd != nil && g.Chance("noticesendfails", 0.5) {
+				c.sEnd.FaultSendAt[0] = fSendErrLost
+			}
+		}
+	}
 	// how it ends: context cancel, accepter failure (generic), or both
 	endKind := g.Weighted("endkind", []int{5, 3, 2})
 	ctxErrClosed := g.Chance("ctxerrclosed", 0.6)
